@@ -1,8 +1,10 @@
-//! A mock AEAD plugged into the crate through its public `Aead` trait. It makes two things observable that
-//! real AEADs hide: the nonce of every call (echoed in the tag) and the `SealError` path (it can be told to
-//! fail). "Encryption" is XOR with 0xAA; tag = nonce (12 bytes) || big-endian length (4 bytes).
+//! Mock AEADs plugged into the crate through its public `Aead` trait. They make two things observable that
+//! real AEADs hide: the nonce of every call (echoed in the tag) and the `SealError` path (they can be told to
+//! fail). "Encryption" is XOR with 0xAA; tag = nonce || big-endian length (4 bytes) || zero padding.
+//! Three nonce sizes: 12 bytes (id 0x7777, like the RFC's AEADs), 24 bytes (0x7778, like XChaCha20-Poly1305) and
+//! 8 bytes (0x7779): RFC 9180 computes the nonce as base_nonce XOR I2OSP(seq, Nn) for whatever Nn the AEAD has.
 
-use aead::generic_array::typenum::{U0, U12, U16, U32};
+use aead::generic_array::typenum::{U0, U12, U16, U24, U32, U8};
 use aead::{AeadCore, AeadInPlace, Key, KeyInit, KeySizeUser, Nonce, Tag};
 use std::cell::Cell;
 
@@ -13,64 +15,73 @@ thread_local! {
     pub static SEALS: Cell<u64> = const { Cell::new(0) };
 }
 
-#[derive(Clone)]
-pub struct ProbeImpl;
-
-impl KeySizeUser for ProbeImpl {
-    type KeySize = U32;
-}
-impl KeyInit for ProbeImpl {
-    fn new(_key: &Key<Self>) -> Self {
-        ProbeImpl
-    }
-}
-impl AeadCore for ProbeImpl {
-    type NonceSize = U12;
-    type TagSize = U16;
-    type CiphertextOverhead = U0;
+fn must_fail() -> bool {
+    SEALS.with(|c| c.set(c.get() + 1));
+    FAIL_SEAL.with(|c| {
+        let v = c.get();
+        if v > 0 {
+            c.set(v - 1);
+            true
+        } else {
+            false
+        }
+    })
 }
 
-fn tag_for(nonce: &[u8], len: usize) -> Tag<ProbeImpl> {
-    let mut t = Tag::<ProbeImpl>::default();
-    t[..12].copy_from_slice(nonce);
-    t[12..].copy_from_slice(&(len as u32).to_be_bytes());
-    t
-}
-
-impl AeadInPlace for ProbeImpl {
-    fn encrypt_in_place_detached(&self, nonce: &Nonce<Self>, _aad: &[u8], buf: &mut [u8]) -> Result<Tag<Self>, aead::Error> {
-        SEALS.with(|c| c.set(c.get() + 1));
-        let fail = FAIL_SEAL.with(|c| {
-            let v = c.get();
-            if v > 0 {
-                c.set(v - 1);
-                true
-            } else {
-                false
+macro_rules! probe_aead {
+    ($imp:ident, $suite:ident, $nn:ty, $nt:ty, $id:expr) => {
+        #[derive(Clone)]
+        pub struct $imp;
+        impl KeySizeUser for $imp {
+            type KeySize = U32;
+        }
+        impl KeyInit for $imp {
+            fn new(_key: &Key<Self>) -> Self {
+                $imp
             }
-        });
-        if fail {
-            return Err(aead::Error);
         }
-        for b in buf.iter_mut() {
-            *b ^= 0xAA;
+        impl AeadCore for $imp {
+            type NonceSize = $nn;
+            type TagSize = $nt;
+            type CiphertextOverhead = U0;
         }
-        Ok(tag_for(nonce, buf.len()))
-    }
-    fn decrypt_in_place_detached(&self, nonce: &Nonce<Self>, _aad: &[u8], buf: &mut [u8], tag: &Tag<Self>) -> Result<(), aead::Error> {
-        if tag_for(nonce, buf.len()) != *tag {
-            return Err(aead::Error);
+        impl $imp {
+            fn tag_for(nonce: &[u8], len: usize) -> Tag<$imp> {
+                let mut t = Tag::<$imp>::default();
+                t[..nonce.len()].copy_from_slice(nonce);
+                t[nonce.len()..nonce.len() + 4].copy_from_slice(&(len as u32).to_be_bytes());
+                t
+            }
         }
-        for b in buf.iter_mut() {
-            *b ^= 0xAA;
+        impl AeadInPlace for $imp {
+            fn encrypt_in_place_detached(&self, nonce: &Nonce<Self>, _aad: &[u8], buf: &mut [u8]) -> Result<Tag<Self>, aead::Error> {
+                if must_fail() {
+                    return Err(aead::Error);
+                }
+                for b in buf.iter_mut() {
+                    *b ^= 0xAA;
+                }
+                Ok(Self::tag_for(nonce, buf.len()))
+            }
+            fn decrypt_in_place_detached(&self, nonce: &Nonce<Self>, _aad: &[u8], buf: &mut [u8], tag: &Tag<Self>) -> Result<(), aead::Error> {
+                if Self::tag_for(nonce, buf.len()) != *tag {
+                    return Err(aead::Error);
+                }
+                for b in buf.iter_mut() {
+                    *b ^= 0xAA;
+                }
+                Ok(())
+            }
         }
-        Ok(())
-    }
+        /// The suite-level handle (not an RFC identifier)
+        pub struct $suite;
+        impl hpke::aead::Aead for $suite {
+            type AeadImpl = $imp;
+            const AEAD_ID: u16 = $id;
+        }
+    };
 }
 
-/// The suite-level handle: AEAD id 0x7777 (not an RFC identifier)
-pub struct ProbeAead;
-impl hpke::aead::Aead for ProbeAead {
-    type AeadImpl = ProbeImpl;
-    const AEAD_ID: u16 = 0x7777;
-}
+probe_aead!(ProbeImpl, ProbeAead, U12, U16, 0x7777);
+probe_aead!(ProbeImpl24, ProbeAead24, U24, U32, 0x7778);
+probe_aead!(ProbeImpl8, ProbeAead8, U8, U16, 0x7779);
